@@ -624,6 +624,8 @@ class Mineral:
         self.regime = regime
         self.orientations_init = self.orientations[0]
         self.fractions_init = self.fractions[0]
+        # The grain count belongs to the stored texture, not to the object loaded into.
+        self.n_grains = len(self.fractions[0])
 
     @classmethod
     def from_file(cls, filename, postfix=None):
